@@ -117,6 +117,10 @@ EXTRA = {
     "C07": ["tea-core/src/vec_core/cores/view.rs"],
     "C08": ["tea-rolling/src/cmp.rs", "tea-rolling/src/norm.rs", "tea-rolling/src/binary.rs", "tea-rolling/src/reg.rs", "tea-map/src/valid_iter.rs", "tea-map/src/vec_map.rs"],
     "C20": ["tea-core/src/agg.rs"],
+    # observed by the C16 / C17 harnesses although only C18 names it (a mutation campaign found a mutant of TimeDelta::nat() that
+    # only C16 / C17 see)
+    "C16": ["tea-time/src/timedelta.rs"],
+    "C17": ["tea-time/src/timedelta.rs"],
 }
 
 def drift(prop, repo):
